@@ -93,15 +93,17 @@ func watchable(setters [][]int, observers int) Scenario {
 				hx.Fail("final-not-a-last-set", "after all Sets returned Value yields %d, which is not the last value of any setter (%v)", final, setters)
 			}
 		}
-		for i, o := range os {
-			if len(o.seen) == 0 {
-				continue // never got to run: nothing to say
+		hx.Atomically(func() {
+			for i, o := range os {
+				if len(o.seen) == 0 {
+					continue // never got to run: nothing to say
+				}
+				last := o.seen[len(o.seen)-1]
+				if o.waiting != nil && last != final {
+					hx.Fail("observer-stuck-on-stale-value", "observer %d is waiting on a channel that will never be closed, having last seen %d while the value is %d (seen %v)", i, last, final, o.seen)
+				}
 			}
-			last := o.seen[len(o.seen)-1]
-			if o.waiting != nil && last != final {
-				hx.Fail("observer-stuck-on-stale-value", "observer %d is waiting on a channel that will never be closed, having last seen %d while the value is %d (seen %v)", i, last, final, o.seen)
-			}
-		}
+		})
 		hx.Outcome("final=%d", final)
 	}}
 }
